@@ -120,6 +120,7 @@ impl SourceDef {
 			"z31lo" => &Z31_LO,
 			"z31hi" => &Z31_HI,
 			"tiny" => &TINY,
+			"ann" => &ANN_TILES,
 			_ => &TILES,
 		}
 	}
@@ -302,7 +303,8 @@ fn write_sources(defs: &[SourceDef], rt: &tokio::runtime::Runtime) {
 // server processes
 // ---------------------------------------------------------------------------------------------
 struct Server {
-	child: Child,
+	/// `None`: a `TileServer` running inside this process (hook `versatiles/verif`)
+	child: Option<Child>,
 	port: u16,
 	fast: bool,
 	flip: bool,
@@ -336,8 +338,10 @@ impl Server {
 }
 impl Drop for Server {
 	fn drop(&mut self) {
-		let _ = self.child.kill();
-		let _ = self.child.wait();
+		if let Some(c) = self.child.as_mut() {
+			let _ = c.kill();
+			let _ = c.wait();
+		}
 	}
 }
 
@@ -381,11 +385,11 @@ fn start_server_x(bin: &str, defs: &[SourceDef], fast: bool, flip: bool, swap: b
 		let log = std::fs::File::create(logdir.join(format!("server_{port}.log"))).unwrap();
 		cmd.stdin(Stdio::null()).stdout(Stdio::null()).stderr(Stdio::from(log));
 		let child = cmd.spawn().expect("cannot start the versatiles binary (VTH_BIN)");
-		let mut srv = Server { child, port, fast, flip, swap, ovr, defs: defs.to_vec() };
+		let mut srv = Server { child: Some(child), port, fast, flip, swap, ovr, defs: defs.to_vec() };
 		let t0 = Instant::now();
 		let mut up = false;
 		while t0.elapsed() < Duration::from_secs(20) {
-			if let Ok(Some(_)) = srv.child.try_wait() {
+			if let Some(Ok(Some(_))) = srv.child.as_mut().map(|c| c.try_wait()) {
 				break; // exited (port taken, …)
 			}
 			if let Some(r) = http_get(port, "/status", None) {
@@ -1206,7 +1210,7 @@ fn routes_section(out: &mut Out, args: &Args, bin: &str, dir: &PathBuf, defs: &[
 		out.eval("collide same id", true);
 	}
 	for inst in insts.iter_mut() {
-		let alive = matches!(inst.srv.child.try_wait(), Ok(None));
+		let alive = inst.srv.child.as_mut().is_none_or(|c| matches!(c.try_wait(), Ok(None)));
 		out.oracle(alive, "C05 server process died", json!({"kind":"server_died","mode":inst.name}), json!({"case": "-"}));
 	}
 	out.notes.push(format!("route instances: {}", insts.iter().map(|i| i.name).collect::<Vec<_>>().join(" | ")));
@@ -1259,6 +1263,71 @@ fn concurrent_section(out: &mut Out, srv: &Server) {
 	for i in 0..total {
 		out.eval(&format!("concurrent {i}"), true);
 	}
+}
+
+// ---------------------------------------------------------------------------------------------
+// sources whose ANNOUNCED pyramid is not what their lookups deliver (seeded regression C05-12).  No reader reachable
+// through the command line under-announces (versatiles / pmtiles / mbtiles / tar / directory derive the pyramid from the
+// stored tiles, the VPL operations clip their lookups to what they announce), so the real `TileServer` is run inside
+// this process (hook: feature `verif` of the versatiles crate) over in-memory readers with a narrowed / widened pyramid.
+// "200 exactly when the source holds the tile" is about lookups, the pyramid is only metadata.
+// ---------------------------------------------------------------------------------------------
+const ANN_TILES: [(u8, u32, u32); 7] = [(0, 0, 0), (1, 1, 0), (2, 1, 2), (3, 7, 0), (5, 17, 9), (9, 300, 301), (12, 4000, 77)];
+
+fn inprocess_section(out: &mut Out, rt: &tokio::runtime::Runtime, dir: &PathBuf) {
+	use versatiles::tools::server::TileServer;
+	use versatiles_core::types::{TileBBox, TileBBoxPyramid};
+	// (id, announced pyramid)
+	let mut narrow = TileBBoxPyramid::new_empty();
+	narrow.include_bbox(&TileBBox::new(1, 0, 0, 1, 1).unwrap());
+	narrow.include_bbox(&TileBBox::new(2, 0, 0, 3, 3).unwrap());
+	let mut low_only = TileBBoxPyramid::new_empty();
+	low_only.include_bbox(&TileBBox::new(0, 0, 0, 0, 0).unwrap());
+	let mut corner = TileBBoxPyramid::new_empty();
+	corner.include_bbox(&TileBBox::new(12, 0, 0, 5, 5).unwrap()); // right zoom range top, wrong boxes, lower levels missing
+	let variants: Vec<(&'static str, TileBBoxPyramid)> = vec![("ann_narrow", narrow), ("ann_low", low_only), ("ann_corner", corner), ("ann_empty", TileBBoxPyramid::new_empty()), ("ann_wide", TileBBoxPyramid::new_full(14))];
+	for fast in [false, true] {
+		let port = free_port();
+		let mut server = TileServer::new("127.0.0.1", port, !fast, true);
+		let mut defs: Vec<SourceDef> = vec![];
+		for (i, (id, pyramid)) in variants.iter().enumerate() {
+			let comp = COMPS[i % 3];
+			let tiles: Vec<((u8, u32, u32), Vec<u8>)> = ANN_TILES.iter().map(|c| (*c, indep_enc(comp, &payload("pbf", *c)))).collect();
+			let tj = TileJSON::try_from("{\"tilejson\":\"3.0.0\",\"name\":\"ann\"}").unwrap();
+			let mut reader = MemReader::new(TileFormat::PBF, comp, tj, &tiles);
+			reader.params.bbox_pyramid = pyramid.clone();
+			if let Err(e) = server.add_tile_source(id, reader.boxed()) {
+				out.oracle(false, "C05 in-process server: cannot add source", json!({"kind":"inprocess_setup"}), json!({"case": "-", "error": format!("{e:#}")}));
+			}
+			defs.push(SourceDef { id: id.to_string(), container: "memory", comp, actual: comp, fmt: "pbf", path: dir.join("-"), set: "ann", indep: false });
+		}
+		let started = rt.block_on(server.start());
+		if started.is_err() {
+			out.oracle(false, "C05 in-process server: cannot start", json!({"kind":"inprocess_setup"}), json!({"case": "-"}));
+			continue;
+		}
+		// wait until it answers
+		let t0 = Instant::now();
+		while t0.elapsed() < Duration::from_secs(10) && !http_get(port, "/status", None).is_some_and(|r| r.status == 200) {
+			std::thread::sleep(Duration::from_millis(30));
+		}
+		let srv = Server { child: None, port, fast, flip: false, swap: false, ovr: None, defs: defs.clone() };
+		let cx = Ctx { servers: &[], defs: &defs };
+		let headers: Vec<(Option<String>, Vec<String>)> = vec![(None, vec![]), (Some("gzip".into()), vec!["gzip".into()]), (Some("br, gzip".into()), vec!["br".into(), "gzip".into()])];
+		for d in &defs {
+			for (ci, c) in ANN_TILES.iter().enumerate() {
+				let (acc, listed) = &headers[ci % headers.len()];
+				let rest = format!("{}/{}/{}", c.0, c.1, c.2);
+				do_request(out, &cx, &srv, d, &rest, acc, Some((Expect::Coord(c.0 as u64, c.1 as u64, c.2 as u64), listed.clone())), "announced_vs_held");
+			}
+			// announced but not held, beyond everything, and a neighbour of a held tile
+			for (z, x, y) in [(1u64, 0u64, 0u64), (2, 3, 3), (12, 1, 1), (13, 0, 0), (14, 5, 5), (20, 7, 7), (9, 300, 300)] {
+				do_request(out, &cx, &srv, d, &format!("{z}/{x}/{y}"), &None, Some((Expect::Coord(z, x, y), vec![])), "announced_vs_held");
+			}
+		}
+		rt.block_on(server.stop());
+	}
+	out.notes.push("sources whose announced pyramid differs from what they hold are served by a TileServer inside the harness process (hook versatiles/verif); no command-line reachable reader under-announces".into());
 }
 
 fn unhex_str(s: &str) -> String {
@@ -1331,6 +1400,7 @@ pub fn run(args: &Args) {
 
 	if let Some(p) = &args.replay {
 		let mut routes_replayed = false;
+		let mut inprocess_replayed = false;
 		for line in std::fs::read_to_string(p).unwrap().lines() {
 			let t: Vec<&str> = line.trim().split(' ').collect();
 			match t.as_slice() {
@@ -1338,6 +1408,12 @@ pub fn run(args: &Args) {
 					// served by the route instances: run that whole (small) section once
 					if !std::mem::replace(&mut routes_replayed, true) {
 						routes_section(&mut out, args, &bin, &dir, &defs);
+					}
+				}
+				["C05", "req2", ..] if t.len() == 11 && t[8] == coords_str(&ANN_TILES) => {
+					// sources with a wrong announced pyramid live in the in-process instances: run that section once
+					if !std::mem::replace(&mut inprocess_replayed, true) {
+						inprocess_section(&mut out, &rt, &dir);
 					}
 				}
 				["C05", "req", ..] | ["C05", "req2", ..] | ["C05", "req3", ..] => {
@@ -1504,6 +1580,8 @@ pub fn run(args: &Args) {
 	// G. every route × every header variant, static sources, option interplay; H. concurrency
 	routes_section(&mut out, args, &bin, &dir, &defs);
 	concurrent_section(&mut out, &servers[0]);
+	// I. announced pyramid ≠ held tiles (in-process TileServer)
+	inprocess_section(&mut out, &rt, &dir);
 	for n in [
 		"checklist 1 (thresholds): z 30/31/32/255/256, x/y 2^z-1, 2^z, 2^32-1, 2^32; 2/3/4+ path parts; stored sizes around 64 KiB and 1 MiB, 1.2 and 2 MiB; 0/1-byte tiles; the four incompressible MIME strings (png/jpg/webp/avif vs svg and 5 others)",
 		"checklist 2 (faults): directory tile deleted / replaced by a directory, tar and versatiles truncated after start-up (404), stored bytes undecodable under the declared compression (500 or stored bytes; was a dropped connection, fixed e9b017ef)",
@@ -1522,7 +1600,7 @@ pub fn run(args: &Args) {
 	// the servers must have survived everything
 	let mut servers = servers;
 	for s in servers.iter_mut() {
-		let alive = matches!(s.child.try_wait(), Ok(None));
+		let alive = s.child.as_mut().is_none_or(|c| matches!(c.try_wait(), Ok(None)));
 		out.oracle(alive, "C05 server process died", json!({"kind":"server_died","mode":s.mode()}), json!({"case": "-", "port": s.port}));
 	}
 	out.notes.push(format!("{} server instances: {}", servers.len(), servers.iter().map(|s| format!("{} ({} sources)", s.mode(), s.defs.len())).collect::<Vec<_>>().join(", ")));
